@@ -78,6 +78,7 @@ func c04(r *core.Run) {
 	r.Rule("R4", "MayReply => MustReply for every method taking the request: if it can reach the funnel, every normal return has state Yes", 30)
 	r.Rule("R6", "pre-dispatch code cannot panic: no explicit panic is reachable (flag-sensitively) in request processing or the library functions it calls before the dispatcher's recover is installed", 2)
 	r.Rule("R7", "requests are not parked on an orphaned work item (shared with C01.H1): the group registry is re-created before the workers of each run and the service is declared stopped only after all workers exited; otherwise, after a Shutdown with queued work and a restart, every request for that resource is appended to a work item no worker will run and is never answered", 2)
+	r.Rule("R8", "one delivery per request (shared with C09.S3): the loop that subscribes to get/call/auth subjects skips subjects covered by another subscribed subject, judged after the method wildcard was appended; two overlapping subscriptions deliver a request twice and it is answered twice", 1)
 	r.Rule("R5", "every handler call (dynamic call passing a request object) lies in a function that defers a recover closure in its entry block", 3)
 
 	models := c04Models(r, "R0")
@@ -85,6 +86,7 @@ func c04(r *core.Run) {
 	if sa, se := queueEngine(r, "R7"); se != nil {
 		c01Restart(r, "R7", sa, root)
 	}
+	coveringRule(r, "R8")
 
 	// ---- R0 funnel ------------------------------------------------------
 	funnels := map[*ssa.Function]bool{}
